@@ -406,6 +406,51 @@ theorem validateEndpoint_none_iff (cfg : TagConfig) (visible : Bool) (tags : Lis
   unfold validateEndpoint
   cases validateTags cfg visible tags <;> cases validatePathParams tpl params <;> simp
 
+/-! ### Servers without a version policy
+
+`ServerBuilder::start` with `VersionPolicy::Unversioned` routes every request
+with no version at all, so *every* range matches: two endpoints on one method
+and path with disjoint ranges, which registration rightly accepts, would both
+match every request.  What keeps dispatch unambiguous is the builder's refusal
+to start such a server (`router.has_versioned_routes()`, a flag `insert`
+maintains).  The flag must therefore be a function of the set of endpoints. -/
+
+/-- A table with any version-restricted endpoint is refused by an unversioned
+server, wherever in the registration order that endpoint stands. -/
+theorem unversioned_server_refuses_versioned (es : List (Endpoint V)) (e : Endpoint V)
+    (he : e ∈ es) (hv : e.versions ≠ .all) : unversionedServerStarts es ≠ some true := by
+  intro h
+  exact hv (((C01.unversioned_server_starts_iff es).1 h).2 e he)
+
+/-- **C02, unambiguity on unversioned servers (partial: outside K1).**  When an
+unversioned server starts, no request - matched on method and path alone, as
+such a server does - matches two endpoints. -/
+theorem unversioned_server_unambiguous_partial (es : List (Endpoint V)) (t : Node V)
+    (hs : unversionedServerStarts es = some true) (h : insertAll Node.empty es = .ok t)
+    (hK : t.NoExactBesideWild) (v : V) (m : String) (p : List String) (e₁ e₂ : Endpoint V)
+    (h₁ : e₁ ∈ es ∧ normMethod e₁.method = normMethod m ∧ (matchT e₁.path p).isSome)
+    (h₂ : e₂ ∈ es ∧ normMethod e₂.method = normMethod m ∧ (matchT e₂.path p).isSome) :
+    e₁ = e₂ := by
+  have hall := ((C01.unversioned_server_starts_iff es).1 hs).2
+  have hr : ∀ e ∈ es, Range.WF e.versions := by
+    intro e he; rw [hall e he]; trivial
+  refine accepted_unambiguous_partial es t hr h hK m p v e₁ e₂
+    ⟨h₁.1, h₁.2.1, h₁.2.2, ?_⟩ ⟨h₂.1, h₂.2.1, h₂.2.2, ?_⟩
+  · rw [hall e₁ h₁.1]; trivial
+  · rw [hall e₂ h₂.1]; trivial
+
+/-- The starting decision does not depend on the registration order. -/
+theorem unversioned_server_order_independent (es es' : List (Endpoint V)) (hp : es.Perm es')
+    (hr : ∀ e ∈ es, Range.WF e.versions) :
+    unversionedServerStarts es = some true ↔ unversionedServerStarts es' = some true := by
+  rw [C01.unversioned_server_starts_iff, C01.unversioned_server_starts_iff]
+  have hacc := acceptance_order_independent es es' hp hr
+  constructor
+  · rintro ⟨a, b⟩
+    exact ⟨hacc.1 a, fun e he => b e (hp.mem_iff.2 he)⟩
+  · rintro ⟨a, b⟩
+    exact ⟨hacc.2 a, fun e he => b e (hp.mem_iff.1 he)⟩
+
 /-! ### Negation witnesses for the reachability clause -/
 
 /-- **K1.**  `PUT /a` beside `GET /a/{r:.*}` is accepted but no request reaches it. -/
